@@ -30,7 +30,34 @@ const SOURCES: &[&str] = &[
     "stream Out = E .emit(v: x)\nstream Big = E .where(x > 5) .emit(big: x)",
 ];
 const BAD_SOURCE: &str = "this is not valid {{{";
-const KEYS: &[&str] = &["key-tenant-A", "key-tenant-B", "key-tenant-C"];
+/// API-key schemes (index = Case.key_scheme): equal-length unrelated keys; keys where one is a
+/// leading part of another; keys differing only in case / one trailing character.
+const KEY_SCHEMES: &[[&str; 3]] = &[
+    ["key-tenant-A", "key-tenant-B", "key-tenant-C"],
+    ["team", "team-blue", "team-blue-2"],
+    ["k1", "k10", "k100"],
+    ["Key-tenant", "key-tenant", "key-tenanT"],
+];
+/// keys that belong to nobody (index = the u8 of Actor::UnknownKey): unrelated, truncated / extended
+/// forms of tenant 0's and 1's keys, the empty key
+fn unknown_key(scheme: usize, v: u8) -> String {
+    let k = KEY_SCHEMES[scheme % KEY_SCHEMES.len()];
+    let cand: Vec<String> = vec![
+        "key-tenant-Z".to_string(),
+        k[0][..k[0].len() - 1].to_string(),
+        format!("{}x", k[1]),
+        String::new(),
+        k[1][..1].to_string(),
+        format!("{}-3", k[2]),
+    ];
+    let all: Vec<&str> = k.to_vec();
+    let c = cand[v as usize % cand.len()].clone();
+    if all.contains(&c.as_str()) {
+        "key-tenant-Z".to_string()
+    } else {
+        c
+    }
+}
 const ADMIN_KEY: &str = "c28-admin";
 
 // ------------------------------------------------------------------ case
@@ -38,7 +65,7 @@ const ADMIN_KEY: &str = "c28-admin";
 #[derive(Clone, Debug, Serialize, Deserialize, PartialEq)]
 enum Actor {
     Tenant(u8),
-    UnknownKey,
+    UnknownKey(#[serde(default)] u8),
     NoKey,
 }
 
@@ -81,6 +108,8 @@ struct Step {
 #[derive(Clone, Debug, Serialize, Deserialize)]
 struct Case {
     tenants: u8,
+    #[serde(default)]
+    key_scheme: u8,
     steps: Vec<Step>,
 }
 
@@ -113,11 +142,11 @@ fn op_strategy() -> impl Strategy<Value = Op> {
 }
 
 fn actor_strategy() -> impl Strategy<Value = Actor> {
-    prop_oneof![12 => (0u8..3).prop_map(Actor::Tenant), 1 => Just(Actor::UnknownKey), 1 => Just(Actor::NoKey)]
+    prop_oneof![12 => (0u8..3).prop_map(Actor::Tenant), 2 => (0u8..6).prop_map(Actor::UnknownKey), 1 => Just(Actor::NoKey)]
 }
 
 fn strat() -> impl Strategy<Value = Case> {
-    (2u8..=3, proptest::collection::vec((0u8..3, 0u8..4), 2..6), proptest::collection::vec((actor_strategy(), op_strategy()), 3..20)).prop_map(|(tenants, deploys, rest)| {
+    (2u8..=3, proptest::collection::vec((0u8..3, 0u8..4), 2..6), proptest::collection::vec((actor_strategy(), op_strategy()), 3..20), 0u8..(KEY_SCHEMES.len() as u8)).prop_map(|(tenants, deploys, rest, key_scheme)| {
         let mut steps: Vec<Step> = deploys.into_iter().map(|(t, src)| Step { actor: Actor::Tenant(t % tenants), op: Op::Deploy { src, name: t } }).collect();
         // every tenant deploys at least once up front
         for t in 0..tenants {
@@ -133,7 +162,7 @@ fn strat() -> impl Strategy<Value = Case> {
             op,
         }));
         steps.truncate(25);
-        Case { tenants, steps }
+        Case { tenants, key_scheme, steps }
     })
 }
 
@@ -209,12 +238,13 @@ fn norm_outputs(list: &Json, flat: bool) -> Vec<(String, BTreeMap<String, Json>)
 }
 
 impl World {
-    fn new(n: u8) -> World {
+    fn new(n: u8, scheme: usize) -> World {
+        let keys = KEY_SCHEMES[scheme % KEY_SCHEMES.len()];
         let rt = tokio::runtime::Builder::new_current_thread().enable_all().build().unwrap();
         let mut mgr = TenantManager::new();
         let mut tenant_ids = vec![];
         for t in 0..n as usize {
-            tenant_ids.push(mgr.create_tenant(format!("tenant-{}", t), KEYS[t].to_string(), TenantQuota::default()).unwrap());
+            tenant_ids.push(mgr.create_tenant(format!("tenant-{}", t), keys[t].to_string(), TenantQuota::default()).unwrap());
         }
         World {
             rt,
@@ -318,7 +348,8 @@ fn fresh_checkpoint() -> Json {
 }
 
 fn run_case(case: &Case) -> Outcome {
-    let mut w = World::new(case.tenants);
+    let mut w = World::new(case.tenants, case.key_scheme as usize);
+    let keys = KEY_SCHEMES[case.key_scheme as usize % KEY_SCHEMES.len()];
     let n = case.tenants as usize;
     let mut out = Outcome::pass();
     let mut foreign_mutating_after_both = 0usize;
@@ -329,9 +360,13 @@ fn run_case(case: &Case) -> Outcome {
             Actor::Tenant(t) => Some(*t as usize % n),
             _ => None,
         };
+        let unknown;
         let key: Option<&str> = match &step.actor {
-            Actor::Tenant(t) => Some(KEYS[*t as usize % n]),
-            Actor::UnknownKey => Some("key-tenant-Z"),
+            Actor::Tenant(t) => Some(keys[*t as usize % n]),
+            Actor::UnknownKey(v) => {
+                unknown = unknown_key(case.key_scheme as usize, *v);
+                Some(unknown.as_str())
+            }
             Actor::NoKey => None,
         };
         let before: Vec<Json> = (0..n).map(|t| w.snapshot(t)).collect();
